@@ -275,7 +275,18 @@ def advance_rule(F, rep, blk):
     ok = any(a[0] == "eq0" and a[1] == "raw_len" for a in atoms) and neg
     # .. and *only* then: the full parse has no such exit, so any further refusal inside the skip block rejects a replay the
     # full parse reads (fail closed: one construction of the crate's refusal error on the pinned tree, the "Cannot skip" one)
-    refusals = [tir.sp(x) for x in tir.walk(blk["then"]) if x.get("k") in ("Call", "Struct") and "Error::InvalidData" in (x.get("path") or declared(x) or "")]
+    # not counted: `payload_sizes[GameEnd].ok_or(..)?` — parse_payloads guarantees that entry (the panic inventory's side
+    # invariant `payloads_game_end`; the pinned tree unwraps it), so that refusal cannot be taken
+    import safety as _safety
+    dead = set()
+    if _safety.chk_payloads_game_end(F, None):
+        for x in tir.walk(blk["then"]):
+            if x.get("k") == "MethodCall" and x["method"] in ("ok_or", "ok_or_else") and len(x.get("args", [])) == 1:
+                rv = strip(x["recv"])
+                if rv.get("k") == "Index" and (tir.place(rv["base"]) or "").endswith("payload_sizes") and any((y.get("path") or "").endswith("Event::GameEnd") for y in tir.walk(rv["index"])):
+                    for y in tir.walk(x["args"][0]):
+                        dead.add(id(y))
+    refusals = [tir.sp(x) for x in tir.walk(blk["then"]) if x.get("k") in ("Call", "Struct") and "Error::InvalidData" in (x.get("path") or declared(x) or "") and id(x) not in dead]
     rep.ob("advance.no-extra-refusal", len(refusals) <= 1, READ, "refusals",
            "the skip-frames block constructs %d refusals (%s), one on the pinned tree (raw_len == 0 or fewer than a Game End's bytes remain): with skip-frames the reader can reject a replay it reads in full" % (len(refusals), ", ".join(refusals)))
     rep.floor("refusal sites in the skip-frames block", len(refusals), 1)
@@ -386,6 +397,10 @@ def zero_frames_rule(F, rep):
 
 
 def run(F, rep, tier):
+    # the metadata of both modes is the map read from the stream itself (shared with C16): a value patched from the frames
+    # parsed so far differs between a full and a skip-frames read
+    from props import C16 as _C16
+    _C16.stored_unmodified_rule(F, rep, "same.metadata-unmodified")
     blk = single_tail_rule(F, rep)
     if blk is not None:
         advance_rule(F, rep, blk)
